@@ -39,18 +39,22 @@ fn exec_affine(case: &Value, out: &mut Out) {
     // EXACTLY s_i (2 x_j + delta) for j = p_i and 0 elsewhere (a central stencil gives 2 x_j, a clamped step another number)
     let quad = gets(case, "kind") == "quad";
     let qp: Vec<usize> = ivec(&case["p"]).iter().map(|v| *v as usize).collect(); let qs = ivec(&case["s"]);
+    // optional second term and coefficient i: f_i = s_i u_i (x_p^2 - x_q^2), u_i in {1, i} (q = -1: no second term)
+    let qq: Vec<i64> = { let v = ivec(&case["q"]); if v.len() == m { v } else { vec![-1; m] } };
+    let qu: Vec<i64> = { let v = ivec(&case["u"]); if v.len() == m { v } else { vec![0; m] } };
     let js = if quad { xs } else { ms };       // scale of the logged result
     let nz: Vec<usize> = ivec(&case["nz"]).iter().map(|v| *v as usize).collect();     // coordinates that are -0.0
     let xval = |v: i64, j: usize| -> f64 { if v == 0 && nz.contains(&j) { -0.0 } else { v as f64 * sx } };
     let mut e = json!({"op": if quad { "jac_quad" } else { "jac_affine" }, "cid": cid, "ty": gets(case, "ty"), "m": m, "n": n, "ms": ms, "xs": xs, "dsc": dsc,
                        "M": case["M"], "x": case["x"]});
-    if quad { e["p"] = case["p"].clone(); e["s"] = case["s"].clone(); e["M"] = json!({"r": 0, "c": 0, "d": []}); }
+    if quad { e["p"] = case["p"].clone(); e["s"] = case["s"].clone(); e["q"] = Value::from(qq.clone()); e["u"] = Value::from(qu.clone()); e["M"] = json!({"r": 0, "c": 0, "d": []}); }
     if !cx {
         let pts: RefCell<Vec<Vec<f64>>> = RefCell::new(vec![]);
         let f = |x: Vec64| -> Vec64 {
             pts.borrow_mut().push(x.vec.clone());
             let mut r = Vec64::new(m, 0.0);
-            if quad { for i in 0..m { let v = x[qp[i].min(x.size() - 1)]; r[i] = qs[i] as f64 * (v * v); } return r; }
+            if quad { for i in 0..m { let v = x[qp[i].min(x.size() - 1)]; let mut val = v * v;
+                if qq[i] >= 0 { let w = x[(qq[i] as usize).min(x.size() - 1)]; val = val - w * w; } r[i] = qs[i] as f64 * val; } return r; }
             for i in 0..m { let mut s = 0.0; for j in 0..x.size().min(n) { s += (mre[i * n + j] as f64 * sm) * x[j]; } r[i] = s + cre[i] as f64 * sm; }
             r
         };
@@ -68,7 +72,9 @@ fn exec_affine(case: &Value, out: &mut Out) {
         let f = |x: Vector<Cmplx>| -> Vector<Cmplx> {
             pts.borrow_mut().push(x.vec.clone());
             let mut r = Vector::<Cmplx>::new(m, Cmplx::new(0.0, 0.0));
-            if quad { for i in 0..m { let v = x[qp[i].min(x.size() - 1)]; r[i] = (v * v) * (qs[i] as f64); } return r; }
+            if quad { for i in 0..m { let v = x[qp[i].min(x.size() - 1)]; let mut val = v * v;
+                if qq[i] >= 0 { let w = x[(qq[i] as usize).min(x.size() - 1)]; val = val - w * w; }
+                val = val * (qs[i] as f64); if qu[i] == 1 { val = val * Cmplx::new(0.0, 1.0); } r[i] = val; } return r; }
             for i in 0..m { let mut s = Cmplx::new(0.0, 0.0);
                 for j in 0..x.size().min(n) { s = s + Cmplx::new(mre[i * n + j] as f64 * sm, mim[i * n + j] as f64 * sm) * x[j]; }
                 r[i] = s + Cmplx::new(cre[i] as f64 * sm, cim[i] as f64 * sm); }
@@ -251,6 +257,7 @@ pub fn gen(tier: &str, seed: u64, out: &mut Out) {
     //     x multiples of 1/64 in [-4,4]; points and delta are logged in units of 2^-26 (|x| + delta < 2^3 -> < 2^29).
     let mut kk = rng.gen_range(0..23i64);
     let mut feat = rng.gen_range(0..6usize);
+    let mut cfeat = rng.gen_range(0..4usize);
     let reps = if quick { 3 } else { 46 };
     for m in 1..=6usize { for n in 1..=6usize { for ty in ["f64", "cx"] { for _ in 0..reps {
         let k = 4 + kk % 23; kk += 1; feat = (feat + 1) % 6;
@@ -263,24 +270,73 @@ pub fn gen(tier: &str, seed: u64, out: &mut Out) {
         let mut c = json!({"kind": "affine", "ty": ty, "m": m, "n": n, "ms": 4, "xs": xs, "k": k, "dsc": 1i64 << (26 - k), "feat": feat, "nz": nz,
                            "M": mm, "c": rand_vec_json(&mut rng, m, -64, 64), "x": x});
         if ty == "cx" { let mut mi = rand_mat_json(&mut rng, m, n, -64, 64); zero_cols(&mut mi, &ign); c["Mi"] = mi; c["ci"] = rand_vec_json(&mut rng, m, -64, 64);
-            let mut xi = xr(&mut rng); let mut nzi = vec![]; special_ints(&mut rng, if feat == 3 { 3 } else { 0 }, &mut xi, 1 << 20, &mut nzi); c["xi"] = Value::from(xi); }
+            let mut xi = xr(&mut rng); let mut nzi = vec![]; special_ints(&mut rng, if feat == 3 { 3 } else { 0 }, &mut xi, 1 << 20, &mut nzi); c["xi"] = Value::from(xi);
+            // genuinely complex coefficients at exactly real (1) / purely imaginary (2) points where the value is exactly real / imaginary,
+            // and points with only some imaginary parts zero (3): the imaginary part of the derivative must survive
+            cfeat = (cfeat + 1) % 4;
+            if cfeat == 1 || cfeat == 2 {
+                // quarter-integers: M parts multiples of 1/4, the point multiples of 1/4, so that the cancelling constant is a multiple of 1/16
+                let q4 = |rng: &mut R, len: usize| -> Vec<i64> { (0..len).map(|_| 4 * rng.gen_range(-16..=16i64)).collect() };
+                let mut mre = q4(&mut rng, m * n); let mut mim = q4(&mut rng, m * n);
+                for i in 0..m { for j in &ign { mre[i * n + *j] = 0; mim[i * n + *j] = 0; } }
+                if mim.iter().all(|v| *v == 0) { mim[0] = 4; }
+                let xq: Vec<i64> = (0..n).map(|j| if c["x"][j].as_i64().unwrap() == 0 && feat % 4 == 1 { 0 } else { rng.gen_range(-16..=16i64) }).collect();   // point = xq / 4
+                let dotq = |row: &[i64]| -> i64 { (0..n).map(|j| row[j] / 4 * xq[j]).sum() };            // (M/16 . xq/4) in sixteenths
+                let free = rand_vec_json(&mut rng, m, -64, 64);
+                if cfeat == 1 { // real point: Im f = Mi x + ci = 0
+                    c["x"] = Value::from(xq.iter().map(|v| v << 24).collect::<Vec<i64>>()); c["xi"] = Value::from(vec![0i64; n]);
+                    c["ci"] = Value::from((0..m).map(|i| -dotq(&mim[i * n..(i + 1) * n])).collect::<Vec<i64>>()); c["c"] = free;
+                } else {        // imaginary point i y: Re f = -Mi y + c = 0
+                    c["xi"] = Value::from(xq.iter().map(|v| v << 24).collect::<Vec<i64>>()); c["x"] = Value::from(vec![0i64; n]);
+                    c["c"] = Value::from((0..m).map(|i| dotq(&mim[i * n..(i + 1) * n])).collect::<Vec<i64>>()); c["ci"] = free;
+                }
+                c["M"] = json!({"r": m, "c": n, "d": mre}); c["Mi"] = json!({"r": m, "c": n, "d": mim}); c["nz"] = json!([]); c["cfeat"] = json!(cfeat);
+            } else if cfeat == 3 { let mut xi = ivec(&c["xi"]); for j in 0..n { if j % 2 == 0 || rng.gen_bool(0.3) { xi[j] = 0; } } c["xi"] = Value::from(xi); c["cfeat"] = json!(3); }
+        }
+        push(out, c);
+    } } } }
+    // (a'') affine maps whose matrix mixes O(1) entries (multiples of 1/16, |.| <= 1) with SMALL non-zero entries +-2^-e, e = 8..24 (as far as
+    //       exactness allows: e + k <= 46), both signs, at every delta = 2^-k, k = 4..26; M, c and the result in units of 2^-24, coarse points
+    //       (multiples of 1/4, |x| <= 2) so that every row sum still fits 53 bits.  The exact expectation is M[i][j]: no entry may be lost.
+    let reps = if quick { 1 } else { 12 };
+    for m in 1..=6usize { for n in 1..=6usize { for ty in ["f64", "cx"] { for _ in 0..reps {
+        let k = 4 + kk % 23; kk += 1; feat = (feat + 1) % 6;
+        let emax = 24.min(46 - k);
+        let ent = |rng: &mut R| -> i64 { if rng.gen_bool(0.5) { let e = rng.gen_range(8..=emax); (if rng.gen_bool(0.5) { 1 } else { -1 }) * (1i64 << (24 - e)) } else { rng.gen_range(-16..=16i64) << 20 } };
+        let mat = |rng: &mut R| -> Value { json!({"r": m, "c": n, "d": (0..m * n).map(|_| ent(rng)).collect::<Vec<i64>>()}) };
+        let xr = |rng: &mut R| -> Vec<i64> { (0..n).map(|_| rng.gen_range(-8..=8i64) << 24).collect() };
+        let cv = |rng: &mut R| -> Vec<i64> { (0..m).map(|_| rng.gen_range(-16..=16i64) << 20).collect() };
+        let mut x = xr(&mut rng); let mut nz = vec![];
+        special_ints(&mut rng, feat, &mut x, 1 << 24, &mut nz);
+        let mut c = json!({"kind": "affine", "ty": ty, "m": m, "n": n, "ms": 24, "xs": 26, "k": k, "dsc": 1i64 << (26 - k), "feat": feat, "small": true, "nz": nz,
+                           "M": mat(&mut rng), "c": cv(&mut rng), "x": x});
+        if ty == "cx" { c["Mi"] = mat(&mut rng); c["ci"] = Value::from(cv(&mut rng)); let mut xi = xr(&mut rng); if rng.gen_bool(0.3) { for v in xi.iter_mut() { *v = 0; } } c["xi"] = Value::from(xi); }
         push(out, c);
     } } } }
     // (a') exactly computable NON-affine maps: f_i = s_i x_{p_i}^2, x multiples of 1/16 (|x| <= 4 for k <= 23, |x| <= 1/2 for k = 24..26:
     //      both squares exact), so the forward quotient is exactly s_i (2 x_j + delta); all k, both element types, special points
-    let reps = if quick { 2 } else { 23 };
+    let reps = if quick { 4 } else { 46 };
+    let mut qv = rng.gen_range(0..4usize);
     for (m, n) in quad_shapes() { for ty in ["f64", "cx"] { for _ in 0..reps {
         let k = 4 + kk % 23; kk += 1; feat = (feat + 1) % 6;
-        let lim: i64 = if k <= 23 { 64 } else { 8 };
-        let xr = |rng: &mut R| -> Vec<i64> { (0..n).map(|_| rng.gen_range(-lim..=lim) << 22).collect() };
+        // variants: 0 plain; 1 tiny points (x = +-2^-12 .. 2^-20: the increments of f are below 1e-12); 2 two-term components x_p^2 - x_q^2 with
+        // coefficients 1 / i; 3 (complex) real point with all |x_j| equal and coefficient i: the value is exactly 0 (real), the derivative is not
+        qv = (qv + 1) % 4;
+        let two = (qv == 2 || qv == 3) && n >= 1;
+        let lim: i64 = if two { if k <= 23 { 32 } else { 4 } } else if k <= 23 { 64 } else { 8 };
+        let xr = |rng: &mut R| -> Vec<i64> { (0..n).map(|_| if qv == 1 { (if rng.gen_bool(0.5) { 1i64 } else { -1 }) << rng.gen_range(6..=14) } else { rng.gen_range(-lim..=lim) << 22 }).collect() };
         let mut x = xr(&mut rng); let mut nz = vec![];
-        special_ints(&mut rng, feat, &mut x, 1 << 22, &mut nz);
+        if qv != 1 { special_ints(&mut rng, feat, &mut x, 1 << 22, &mut nz); }
+        if qv == 3 { let v = if x[0] == 0 { 1i64 << 22 } else { x[0].abs() }; for j in 0..n { x[j] = if rng.gen_bool(0.5) { v } else { -v }; } nz.clear(); }
         let ign = ignored(&mut rng, feat, n);
         let live: Vec<usize> = (0..n).filter(|j| !ign.contains(j) || n == 1).collect();
         let p: Vec<usize> = (0..m).map(|_| live[rng.gen_range(0..live.len())]).collect();
         let s: Vec<i64> = (0..m).map(|_| if rng.gen_bool(0.5) { 1 } else { -1 }).collect();
-        let mut c = json!({"kind": "quad", "ty": ty, "m": m, "n": n, "ms": 0, "xs": 26, "k": k, "dsc": 1i64 << (26 - k), "feat": feat, "nz": nz, "x": x, "p": p, "s": s});
-        if ty == "cx" { c["xi"] = Value::from(xr(&mut rng)); }
+        let q: Vec<i64> = (0..m).map(|_| if two && (qv == 3 || rng.gen_bool(0.7)) { live[rng.gen_range(0..live.len())] as i64 } else { -1 }).collect();
+        let u: Vec<i64> = (0..m).map(|i| if ty == "cx" && two && (q[i] >= 0 || qv == 2) && rng.gen_bool(0.6) { 1 } else { 0 }).collect();
+        let u: Vec<i64> = if qv == 3 { (0..m).map(|i| if q[i] >= 0 { u[i] } else { 0 }).collect() } else { u };
+        let mut c = json!({"kind": "quad", "ty": ty, "m": m, "n": n, "ms": 0, "xs": 26, "k": k, "dsc": 1i64 << (26 - k), "feat": feat, "qv": qv, "nz": nz, "x": x, "p": p, "s": s, "q": q, "u": u});
+        if ty == "cx" { c["xi"] = if qv == 3 { Value::from(vec![0i64; n]) } else { Value::from(xr(&mut rng)) }; }
         push(out, c);
     } } }
     // (b) smooth maps, all shapes, delta = 1e-8 and 2^-k (k = 4..26); the same special points (here as f64 bit patterns)
@@ -309,7 +365,7 @@ pub fn gen(tier: &str, seed: u64, out: &mut Out) {
     } } } }
     // (b') f_i = s_i x_{p_i}^2 at general points with delta = 1e-8 (and now and then 2^-k): tight oracle in units of eps |f| / delta;
     //      half of the points lie in [-0.1, 0.1] (exact 0.0 / -0.0 included), where a central stencil (2x instead of 2x + delta) is off by >= 1 unit
-    let reps = if quick { 3 } else { 30 };
+    let reps = if quick { 5 } else { 30 };
     for (m, n) in quad_shapes() { for ty in ["f64", "cx"] { for rep in 0..reps {
         let delta = if rep % 3 != 2 { 1.0e-8 } else { let k = 10 + kk % 17; kk += 1; pow2(-k) };
         feat = (feat + 1) % 6;
@@ -317,6 +373,7 @@ pub fn gen(tier: &str, seed: u64, out: &mut Out) {
         let pt = |rng: &mut R| -> Vec<f64> { (0..n).map(|_| if small { rng.gen_range(-0.1..=0.1) } else { rng.gen_range(-4.0..=4.0) }).collect() };
         let hx = |v: &Vec<f64>| -> Vec<Value> { v.iter().map(|x| jhex(*x)).collect() };
         let mut x = pt(&mut rng); special_f(&mut rng, feat, &mut x);
+        if rep % 5 == 4 { for v in x.iter_mut() { *v = (if rng.gen_bool(0.5) { 1.0 } else { -1.0 }) * pow2(-rng.gen_range(12..=20)); } }      // tiny points: f_new - f far below 1e-12
         let ign = ignored(&mut rng, feat, n);
         let live: Vec<usize> = (0..n).filter(|j| !ign.contains(j) || n == 1).collect();
         let p: Vec<usize> = (0..m).map(|_| live[rng.gen_range(0..live.len())]).collect();
